@@ -234,7 +234,13 @@ func (s *encoder) Run(ctx context.Context) {
 		return
 	}
 
-	s.data = splitWithUDHI(encodedData, perMsgLength, s.frameKey)
+	data, err := splitWithUDHI(encodedData, perMsgLength, s.frameKey, encoder.Name())
+	if err != nil {
+		s.canEncode = false
+		s.reason = fmt.Sprintf("%s split error: %v", s.Name(), err)
+		return
+	}
+	s.data = data
 }
 
 func (s *encoder) Result() (contents [][]byte, actualMsgFmt datacoding.ProtocolDataCoding, err error) {
